@@ -401,6 +401,73 @@ def check_drop_releases_blocked(ctx):
     return ob
 
 
+def check_worker_exit_order(ctx, confirm=None):
+    """DatabaseInner::drop returns as soon as the thread counter reads 0.  A worker thread owns clones of the supervisor (journal, keyspaces): if it counts itself down
+    *before* it lets go of them, the journal can be dropped (flushed + synced) by that worker after `drop` has returned - the data of a manual-persist keyspace is then not
+    even in the file when the directory is opened again, and the late flush lands in a journal the next instance is already using."""
+    ob = ctx.ob('worker/releases-before-count-down', 'worker thread (both exits: close and error): everything the thread holds of the database (its WorkerState: supervisor, queue ends) is dropped '
+                'before the thread counter is decremented, so that when DatabaseInner::drop stops waiting no other thread can still run Journal::drop', [r'worker_pool::<impl>::start::\{closure#0\}::\{closure#0\}'])
+    cands = [f for f in ctx.prog.fns.values() if f.key.startswith('worker_pool::<impl>::start::{closure#0}') and 'worker_tick' in str(f.blocks)]
+    if not cands:
+        ob.status = 'undecided'; ob.detail = 'worker closure not found'; return ob
+    fn = cands[0]
+    ex = ctx.executor(no_inline=[r'^worker_tick$'], loop_bound=2)
+    ex.drop_events = {'WorkerState'}
+
+    def setup(ex_, st, fr):
+        env = Obj(fn.locals[fn.args[0]], 'worker_closure', 'closure'); env.data['loc'] = 'worker'
+        env.fields[0] = Cell(Obj('worker_pool::WorkerState', 'worker_state', 'struct'))
+        fr.locals[fn.args[0]] = Cell(env)
+    paths = ex.run(fn, setup=setup)
+    ctx.functions_encoded[fn.key] = ctx.prog.hashes.get(fn.name, '')
+    ctx.paths_total += len(paths); ctx.events_total += sum(len(p.events) for p in paths)
+    bad = []
+    if [p for p in paths if p.status in ('error', 'timeout')]:
+        ob.status = 'undecided'; ob.detail = 'executor error'; return ob
+    for p in paths:
+        if p.status != 'returned':
+            continue
+        subs = [e for e in p.events if e.kind == 'ATOMIC_FETCH_SUB']
+        drops = [e for e in p.events if e.kind == 'DROP' and e.args.get('ty') == 'WorkerState']
+        if not subs:
+            continue
+        ob.reach += 1
+        if not drops:
+            bad.append((p, 'the worker state is never dropped on this exit')); continue
+        if drops[0].idx > subs[0].idx:
+            errp = ret_is_err(p) is not None and ctx.sat(p.pc + [ret_is_err(p)], ob)[0] == z3.sat and ctx.sat(p.pc + [ret_is_ok(p)], ob)[0] != z3.sat
+            bad.append((p, f'on the {"error" if errp else "close"} exit the worker counts itself down while it still holds its supervisor clone (journal, keyspaces): DatabaseInner::drop can return, and the directory be '
+                           'opened again, before the journal has been flushed and synced by Journal::drop'))
+    if ob.reach == 0:
+        ob.status = 'undecided'; ob.detail = 'vacuous'
+    elif not bad:
+        ob.status = 'discharged'; ob.sample = {'paths': ob.reach}
+    else:
+        ctx.candidate(ob, 'worker/counted-down-while-holding-journal', f'{ob.id}: {bad[0][1]}', confirm=confirm or (lambda: native_worker_exit_order(ctx)))
+    return ob
+
+
+def native_worker_exit_order(ctx):
+    """a worker is parked right after it counted itself down (hook); the last handle is dropped on another thread, which returns; the directory is opened again at once:
+    an acknowledged write of a manual-persist keyspace (still in the journal's buffer, to be flushed by Journal::drop) must be there"""
+    L = ['dir $DIR/db', 'workers_pausable 1', 'open workers=1 manual_persist=1', 'ks a manual=1', 'insert a 6b31 7631', 'arm_pause worker.counted_down', 'spawn_close D', 'join_timeout D 5000',
+         'wait_parked worker.counted_down 2000', 'workers_pausable 0', 'open workers=0', 'ks a', 'get a 6b31', 'close', 'release worker.counted_down', 'sleep 300', 'open workers=0', 'ks a', 'get a 6b31', 'close']
+    spath, out = ctx.run_scenario('\n'.join(L) + '\n', tag='worker-exit-order')
+    rs = [(c, r) for _i, c, r in out]
+    if any(c == 'CRASH' for c, _r in rs):
+        return False, spath, 'replay ended abnormally: ' + rs[-1][1][-200:]
+    jt = [r for c, r in rs if c == 'join_timeout']
+    parked = [r for c, r in rs if c == 'wait_parked']
+    opens = [r for c, r in rs if c == 'open']
+    gets = [r for c, r in rs if c == 'get']
+    if not jt or jt[0] != 'ok' or not parked or not parked[0].startswith('ok'):
+        return False, spath, f'the scenario did not reach the window (drop: {jt}, worker parked: {parked})'
+    if len(opens) > 1 and opens[1] == 'ok' and gets and gets[0] != 'some:7631':
+        return True, spath, (f'the last handle was dropped (drop returned) while a worker thread that had already counted itself down still held the journal: reopening at once succeeds but the acknowledged write is '
+                             f'missing (get = {gets[0]}); it appears only after that thread ran Journal::drop (second reopen: {gets[1:]}) - into a journal file the new instance was already using')
+    return False, spath, f'held natively (reopen: {opens[1:2]}, get: {gets})'
+
+
 def native_drop_with_blocked_worker(ctx):
     """one worker thread; it is parked at the start of a memtable rotation while 1100 further writes each request a rotation (the bounded worker queue, capacity 1000, fills up);
     released, the worker rotates and blocks in its `send(Flush)` on the full queue.  Then the last handle is dropped on another thread: the drop must finish."""
@@ -550,6 +617,7 @@ def run(ctx):
     check_lock_acquire(ctx)
     check_drop(ctx)
     check_drop_releases_blocked(ctx)
+    check_worker_exit_order(ctx)
     if ctx.tier == 'thorough':
         check_kani(ctx)
     for o in ctx.obligations:
